@@ -1,14 +1,18 @@
 ----------------------- MODULE Trace_BlobStoreFault -----------------------
-(* Strict validation of fault-injection runs of real storage configurations against BlobStoreFault.
+(* Strict validation of fault-injection / crash runs of real storage configurations against BlobStoreFault.
    Lines: reset (as Trace_BlobStore), op (with "flt": the injected fault fired during this call),
    recover (the store was rebuilt by its own recovery procedure; "res":"ok" or "failed").
-   TLC searches over the outcomes of failed mutators; a line no branch can explain rejects the segment. *)
+   TLC searches over the outcomes of failed mutators (BFS over all branches).  Segments (reset to reset) are
+   independent; so that ONE linear TLC run examines all of them, every live branch may also give up: the
+   `dead` chain (one canonical state per line) skips to the next reset.  Live steps report the highest line
+   they explained (<<"HW", line>>, monotone register, -workers 1); a segment is accepted iff its last line was
+   explained by a live branch, otherwise the first unexplained line is HW+1.  The orchestrator reads the HW lines. *)
 EXTENDS BlobStoreFault, TLC, Json, IOUtils
 
-VARIABLE l
+VARIABLES l, dead
 Trace == ndJsonDeserialize(IOEnv.TRACE_FILE)
 Ev == Trace[l]
-tvars == <<fvars, l>>
+tvars == <<fvars, l, dead>>
 
 SeqToSet(s) == {s[i] : i \in 1..Len(s)}
 
@@ -18,8 +22,14 @@ TInit == /\ l = 1
          /\ caps = [canRemove |-> TRUE, readOnly |-> FALSE, subfetch |-> "yes"]
          /\ reply = [op |-> "init", res |-> "ok", size |-> 0, list |-> <<>>]
          /\ limbo = {}
+         /\ dead = TRUE
 
+ASSUME TLCSet(1, 0)
+Mark == IF l > TLCGet(1) THEN TLCSet(1, l) /\ PrintT(<<"HW", l>>) ELSE TRUE
 IsEv(e) == l <= Len(Trace) /\ Ev.ev = e /\ l' = l + 1
+Live == ~dead /\ dead' = FALSE
+\* Mark must be the LAST conjunct of an action: TLC evaluates conjuncts in order, and the line counts as
+\* explained only if everything before it held.
 
 TReset == /\ IsEv("reset")
           /\ present' = SeqToSet(Ev.pre)
@@ -27,6 +37,7 @@ TReset == /\ IsEv("reset")
           /\ caps' = [canRemove |-> Ev.canRemove, readOnly |-> Ev.readOnly, subfetch |-> Ev.subfetch]
           /\ reply' = [op |-> "init", res |-> "ok", size |-> 0, list |-> <<>>]
           /\ limbo' = {}
+          /\ dead' = FALSE
 
 Act(e) ==
   CASE e.op = "receive"  -> OkReceive(e.b)
@@ -35,6 +46,7 @@ Act(e) ==
     [] e.op = "stat"     -> OkStat(SeqToSet(e.bs))
     [] e.op = "enum"     -> OkEnumerate(e.after, e.limit)
     [] e.op = "remove"   -> OkRemove(SeqToSet(e.bs))
+    [] e.op = "stream"   -> OkStream
 Same(r, e) == r.res = e.res /\ r.size = e.size /\ r.list = e.list
 
 FailClasses == {"injected", "other", "failed", "corrupt", "readerr"}
@@ -42,18 +54,26 @@ FailClasses == {"injected", "other", "failed", "corrupt", "readerr"}
 ReadFailClasses == FailClasses \cup {"notexist"}
 
 \* a call not hit by the fault, or hit but completed: exactly the reference behaviour
-TNormal == IsEv("op") /\ Act(Ev) /\ Same(reply', Ev)
+TNormal == IsEv("op") /\ Live /\ Act(Ev) /\ Same(reply', Ev) /\ Mark
 
 \* a call hit by the fault that returned an error
-TFailed == /\ IsEv("op") /\ Ev.flt
+TFailed == /\ IsEv("op") /\ Live /\ Ev.flt
            /\ Ev.res \in (IF Ev.op \in {"fetch", "subfetch"} THEN ReadFailClasses ELSE FailClasses)
            /\ CASE Ev.op = "receive" -> FailedReceive(Ev.b)
                 [] Ev.op = "remove"  -> FailedRemove(SeqToSet(Ev.bs))
                 [] OTHER             -> FailedRead(Ev.op)
+           /\ Mark
 
-TRecover == IsEv("recover") /\ Ev.res = "ok" /\ Recover
+TRecover == IsEv("recover") /\ Live /\ Ev.res = "ok" /\ Recover /\ Mark
 
-TNext == TReset \/ TNormal \/ TFailed \/ TRecover
+(* giving up on a segment: one canonical dead state per line *)
+Canon == /\ present' = {} /\ size' = [b \in Blobs |-> 0]
+         /\ caps' = [canRemove |-> TRUE, readOnly |-> FALSE, subfetch |-> "yes"]
+         /\ reply' = [op |-> "init", res |-> "ok", size |-> 0, list |-> <<>>] /\ limbo' = {}
+TGiveUp == ~dead /\ l <= Len(Trace) /\ Ev.ev # "reset" /\ l' = l + 1 /\ dead' = TRUE /\ Canon
+TSkip == dead /\ l <= Len(Trace) /\ Ev.ev # "reset" /\ l' = l + 1 /\ UNCHANGED <<fvars, dead>>
+
+TNext == TReset \/ TNormal \/ TFailed \/ TRecover \/ TGiveUp \/ TSkip
 TSpec == TInit /\ [][TNext]_tvars
 TraceAccepted == TLCGet("stats").diameter - 1 = Len(Trace)
 =============================================================================
